@@ -220,4 +220,86 @@ theorem lehmerToPerm_perm (size : Nat) (lehmer : List Nat) (h : lehmerValid size
   unfold lehmerToPerm
   exact lehmerGo_perm lehmer (List.range size) (by simpa using h)
 
+/-! ## TOC with a permutation: writer → parser, given the entropy coder's round trip -/
+
+theorem allCanon_sizes (sc : Env) (sizes : List Nat) :
+    allCanon (canonicalTy sc tocSizeTy) (sizes.map Val.nat) = true := by
+  induction sizes with
+  | nil => rfl
+  | cons x r ih => simp [allCanon, canonicalTy_nat, ih]
+
+theorem tocHead_canonical (k : Nat) (b : Bool) : canonicalFields [("entry_count", .nat k)] tocHead []
+    [("_count_ok", .unit), ("permuted", .bool b)] = true := rfl
+
+theorem tocTail_canonical (k : Nat) (sizes : List Nat) : canonicalFields [("entry_count", .nat k)] tocTail []
+    [("_pad0", .unit), ("sizes", .list (sizes.map .nat)), ("_pad1", .unit)] = true := by
+  simp [canonicalFields, tocTail, Parts.always, Parts.tt, evalBool, eval, canonicalTy,
+    allCanon_sizes _ sizes]
+
+theorem map_nat!_map_nat (l : List Nat) : (l.map Val.nat).map Val.nat! = l := by
+  induction l with
+  | nil => rfl
+  | cons x r ih => simp [Val.nat!, ih]
+
+theorem parseToc_writeToc_permuted (dec : PermDecoder) (ch : Nat → Nat) (pos g l : Nat)
+    (sizes lehmer : List Nat) (enc bits rest : Bits)
+    (hdec : ∀ r, dec sizes.length (enc ++ r) = .ok (lehmer, r))
+    (hw : writeToc ch pos sizes (some enc) = some bits) :
+    parseToc dec (pos + (bits ++ rest).length) g l sizes.length (bits ++ rest) =
+      .ok ({ entryCount := sizes.length, numLfGroups := l, numGroups := g, permuted := true,
+             perm := lehmerToPerm sizes.length lehmer, sizes := sizes,
+             base := (pos + bits.length) / 8 }, rest) := by
+  unfold writeToc at hw
+  simp only [Option.isSome_some, Option.getD_some] at hw
+  cases hh : writeFields ch [("entry_count", .nat sizes.length)] tocHead [] pos
+      [("_count_ok", .unit), ("permuted", .bool true)] with
+  | none => simp [hh] at hw
+  | some hb =>
+    rw [hh] at hw
+    simp only at hw
+    cases ht : writeFields ch [("entry_count", .nat sizes.length)] tocTail []
+        (pos + hb.length + enc.length)
+        [("_pad0", .unit), ("sizes", .list (sizes.map .nat)), ("_pad1", .unit)] with
+    | none => simp [ht] at hw
+    | some tb =>
+      rw [ht] at hw
+      simp only [Option.some.injEq] at hw
+      subst hw
+      have hhead := parseFields_writeFields ch tocHead [("entry_count", .nat sizes.length)] [] pos
+        _ hb (enc ++ (tb ++ rest)) (pos + (hb ++ enc ++ tb ++ rest).length)
+        (tocHead_canonical sizes.length true) hh (by simp [List.length_append]; omega)
+      have htail := parseFields_writeFields ch tocTail [("entry_count", .nat sizes.length)] []
+        (pos + hb.length + enc.length) _ tb rest (pos + (hb ++ enc ++ tb ++ rest).length)
+        (tocTail_canonical sizes.length sizes) ht (by simp [List.length_append]; omega)
+      have e1 : hb ++ enc ++ tb ++ rest = hb ++ (enc ++ (tb ++ rest)) := by simp
+      unfold parseToc
+      simp only
+      rw [e1] at hhead htail ⊢
+      rw [hhead]
+      simp only [List.nil_append]
+      have hp : ((Val.record [("_count_ok", Val.unit), ("permuted", Val.bool true)]).get "permuted").bool! = true := by
+        decide
+      simp only [hp, if_true, hdec, htail, List.nil_append]
+      have hs : ((Val.record [("_pad0", Val.unit), ("sizes", Val.list (sizes.map Val.nat)), ("_pad1", Val.unit)]).get "sizes").list! = sizes.map Val.nat := by
+        simp [Val.get, Env.get?, Val.list!]
+      rw [hs, map_nat!_map_nat]
+      congr 3
+      simp [List.length_append]; omega
+
+/-! ### the hand-made trivial code satisfies the coder hypothesis on a concrete stream
+
+`demoPermBits` is what `trivialPermWrite 5 [0, 1, 2, 3] [3, 0, 2]` writes (alphabet of 5, simple
+prefix code with the four symbols 0..3 of length 2, then `end = 3` and the Lehmer digits 3, 0, 2);
+`trivialPermDecoder` reads it back whatever follows. -/
+
+def demoPermBits : Bits := [false, true, false, false, true, true, true, true, true, true, false, true, false, false, false, false, true,
+ false, true, true, false, false, false, true, false, false, false, true, false, true, true, false, false, true, true,
+ true, true, false, false, true, false]
+
+theorem demoPermBits_eq : trivialPermWrite 5 [0, 1, 2, 3] [3, 0, 2] = some demoPermBits := by decide
+
+theorem trivialPermDecoder_demo (r : Bits) : trivialPermDecoder 5 (demoPermBits ++ r) = .ok ([3, 0, 2], r) := by
+  simp [demoPermBits, trivialPermDecoder, trivialPermDecoder.go, rd, takeBits, ofBits, parseN, log2Ceil, trivialReadSymbol,
+    sortNat, Val.nat!, show Nat.log2 4 = 2 by decide]
+
 end Jxl.Headers
